@@ -59,6 +59,12 @@ func c12Thresholds(k intKind, r *rng) []string {
 		for _, v := range []int64{max, max - 1, max - 2, min, min + 1, min + 2, 0, 3, -3, 5, -5, 100, -100} {
 			add(v)
 		}
+		// thresholds on the far side of zero: the failing value closest to zero is 0 itself
+		for _, v := range []int64{1, 7, 1000, max / 3, max} {
+			if v <= max {
+				out = append(out, fmt.Sprintf("le:%d", v), fmt.Sprintf("ge:%d", -v))
+			}
+		}
 		for j := 0; j < 6; j++ {
 			v := int64(r.next()) >> uint(64-k.bits) >> uint(r.intn(k.bits))
 			add(v)
@@ -101,6 +107,23 @@ func c12Scenarios(cfg runCfg) []Scenario {
 		for ki, k := range intKinds {
 			ths := c12Thresholds(k, newRng(cfg.seed, 12, uint64(ki)))
 			for ti, th := range ths {
+				var v int64
+				far := false
+				if _, err := fmt.Sscanf(th, "le:%d", &v); err == nil && v > 0 {
+					far = true
+				} else if _, err := fmt.Sscanf(th, "ge:%d", &v); err == nil && v < 0 {
+					far = true
+				}
+				if far {
+					// zero-crossing thresholds: all of them, with and without -short
+					for _, short := range []string{"0", "1"} {
+						if cfg.mine(i) {
+							out = append(out, Scenario{Family: "threshold", Seed: mix(cfg.seed, 12, 3, uint64(s), uint64(i)), K: ki, S: th, X: map[string]string{"short": short}})
+						}
+						i++
+					}
+					continue
+				}
 				if (ti+ki+int(cfg.seed))%step != 0 {
 					continue
 				}
@@ -195,7 +218,11 @@ func c12Run(t *testing.T, sc Scenario, res *Result) {
 			if dir == "uge" {
 				return rv.Uint() == uv, fmt.Sprint(uv)
 			}
-			return rv.Int() == sv, fmt.Sprint(sv)
+			want := sv
+			if (dir == "le" && sv > 0) || (dir == "ge" && sv < 0) {
+				want = 0 // zero fails, too, and nothing is closer to zero
+			}
+			return rv.Int() == want, fmt.Sprint(want)
 		}
 	case "collection":
 		var g *rapid.Generator[any]
@@ -244,13 +271,17 @@ func c12Run(t *testing.T, sc Scenario, res *Result) {
 			return true, ""
 		}
 	}
-	if mix(sc.Seed, 0x5407)%5 == 0 && sc.X["slow"] != "1" {
+	if (sc.X["short"] == "1" || (sc.X["short"] == "" && mix(sc.Seed, 0x5407)%5 == 0)) && sc.X["slow"] != "1" {
 		// -short is a configuration, too (a fifth of the checks, half of the steps): exactness must not depend on it
 		if err := flag.Set("test.short", "true"); err == nil {
 			defer flag.Set("test.short", "false")
 			fl["rapid.checks"] = "1000000" // divided by 5 under -short
 			res.inc("short_mode_runs")
 		}
+	}
+	if mix(sc.Seed, 0x7e5b)%6 == 0 {
+		fl["rapid.v"] = "true" // verbose logging must not change what is presented
+		res.inc("verbose_runs")
 	}
 	if sc.X["slow"] == "1" {
 		fl["rapid.shrinktime"] = "1s"
